@@ -1,11 +1,12 @@
 package main
 
-// End-to-end tier of C01: real server, real PeerConnections (see vmedia).  The publisher
-// sends every source packet in order and nothing is lost upstream, so every id a
-// subscriber did not receive was withheld by the server: consecutive received ids must
-// carry consecutive sequence numbers, the first one its source number (mod 2^16), and
-// later copies of an id the same number.  Kernel UDP error counters are sampled around the
-// session; a discrepancy counts only if they did not move.
+// End-to-end tier of C01: real server, real PeerConnections (see vmedia).  The server's
+// down tracks report every packet they withhold (successful packetmap.Drop, trace point
+// under the verif tag).  For any two received source packets the forwarded numbers must
+// differ by the source distance minus the number of packets withheld in between, a
+// withheld packet is never received, and later copies of an id carry the same number.
+// Ids that were neither received nor withheld were lost (kernel, pion, or the server's
+// congested writer, which galene treats like network loss) and leave their gap.
 
 import (
 	"fmt"
@@ -79,28 +80,39 @@ func judgeE2E(run *vk.Run, name, who string, rx []vmedia.Rx, res vmedia.Result) 
 		ids = append(ids, int(id))
 	}
 	sort.Ints(ids)
-	withheld := 0
-	var witness string
-	bad := 0
+	ssrc := rx[0].SSRC
+	for _, p := range rx {
+		if p.SSRC != ssrc {
+			run.Count("e2e_streams_with_several_ssrcs", 1)
+			return
+		}
+	}
+	// the server's own record of what it withheld from this down track
+	w := res.Withheld(ssrc)
+	for _, id := range ids {
+		if w[id] {
+			run.Violation("e2e:withheld-packet-forwarded", fmt.Sprintf("subscriber %s received source packet #%d as %d although the server had withheld it from this receiver", who, id, first[uint32(id)].Seq), map[string]any{"e2e_session": name, "subscriber": who})
+			return
+		}
+	}
+	withheld, lost := 0, 0
 	for k := 1; k < len(ids); k++ {
 		a, b := first[uint32(ids[k-1])], first[uint32(ids[k])]
-		withheld += ids[k] - ids[k-1] - 1
-		if b.Seq-a.Seq != 1 {
-			bad++
-			if witness == "" {
-				witness = fmt.Sprintf("source #%d was forwarded as %d and the next forwarded source #%d as %d (%d packets withheld in between): not consecutive", ids[k-1], a.Seq, ids[k], b.Seq, ids[k]-ids[k-1]-1)
+		wh := 0
+		for id := ids[k-1] + 1; id < ids[k]; id++ {
+			if w[id] {
+				wh++
 			}
+		}
+		withheld += wh
+		lost += ids[k] - ids[k-1] - 1 - wh
+		if int(b.Seq-a.Seq) != ids[k]-ids[k-1]-wh {
+			run.Violation("e2e:forwarded-number-not-source-minus-withheld", fmt.Sprintf("subscriber %s: source #%d was forwarded as %d and source #%d as %d; the server withheld %d of the %d packets in between, so the numbers should differ by %d", who, ids[k-1], a.Seq, ids[k], b.Seq, wh, ids[k]-ids[k-1]-1, ids[k]-ids[k-1]-wh), map[string]any{"e2e_session": name, "subscriber": who, "received": len(ids)})
+			return
 		}
 	}
 	run.Eval(int64(len(ids)))
-	if bad > 0 {
-		if res.UDPErrors != 0 {
-			run.Count("e2e_streams_discarded_udp_errors", 1)
-			return
-		}
-		run.Violation("e2e:forwarded-numbers-not-consecutive", fmt.Sprintf("subscriber %s: %s (%d such places, kernel UDP error counters did not move)", who, witness, bad), map[string]any{"e2e_session": name, "subscriber": who, "received": len(ids), "withheld": withheld})
-		return
-	}
+	run.Count("e2e_lost_not_withheld", int64(lost))
 	run.Count("e2e_streams_gap_free", 1)
 	run.Count("e2e_packets_checked", int64(len(ids)))
 	run.Count("e2e_withheld_by_server", int64(withheld))
@@ -138,5 +150,5 @@ func e2eTier(run *vk.Run) {
 	run.FloorCounter("e2e_streams_gap_free", int64(batches*sessions))
 	run.FloorCounter("e2e_withheld_by_server", 100)
 	run.FloorCounter("e2e_late_joiner_streams", int64(batches*sessions/3))
-	run.Assume("end-to-end tier: nothing is lost upstream (publisher sends every number), so an id a subscriber did not receive was withheld by the server; kernel UDP error counters are sampled around each session and a discrepancy is discarded if they moved")
+	run.Assume("end-to-end tier: the set of packets a down track deliberately withheld is what its successful packetmap.Drop calls report through the verif trace point")
 }
